@@ -58,6 +58,7 @@ class DynWrite(Case):
         Case.__init__(s, f'w{kind[:3]}_{SHORT[T]}_{"x".join(map(str, shape))}_{"x".join(map(str, oshape))}_{OPN[op]}{macro_tag}', [a] + extra + sc, k, r,
                       desc=f'A({seqs}) {op} {fr}: parent {shape}, extent {oshape}, {T}', pre=pre)
         s.dom = 'real' if kind == 'matvec' else ('uf' if T in FT else 'bits'); s.uf_int = T in IT; s.max_paths = 400; s.timeout = 20; s.weight = 40 if len(shape) > 1 else (10 if oshape[0] >= 8 else 3)
+        if len(shape) > 1: s.budget = 400
         if T in FT and op == '/=' and kind == 'scalar': s.alt_ref_src = r.replace(apply_op(T, op, dst, sr), f'{dst} *= (({T})1/x[0]);')
 
 
@@ -127,7 +128,7 @@ def cases(tier, cfg, seed):
                 if tier == 'quick' and (N, n) != (9, 4) and op in ('*=', '/=') and T in IT: continue
                 for kind in kinds: add(DynWrite(T, (N,), (n,), op, kind))
         if isf: add(FixWrite(T, (9,), [fs(1, 7, 2)], '+=', 'matvec')); add(FixWrite(T, (9,), [fs(2, 6)], '=', 'matvec')); add(FixWrite(T, (9,), [fs(0, 8, 2)], '-=', 'matvec'))
-        for shape, osh in (([((4, 9), (2, 4))] if (T == 'double' and cfg.isa == 'avx2') else []) if tier == 'quick' else [((4, 9), (2, 4)), ((5, 5), (3, 2)), ((3, 8), (3, 8)), ((4, 9), (4, 3))]):
+        for shape, osh in (([((4, 9), (2, 4))] if (T == 'double' and cfg.isa == 'avx2') else ([((4, 5), (2, 2))] if (T == 'double' and cfg.isa == 'sse2') else [])) if tier == 'quick' else [((4, 9), (2, 4)), ((5, 5), (3, 2)), ((3, 8), (3, 8)), ((4, 9), (4, 3))]):
             for op in (('=',) if tier == 'quick' else OPS):
                 for kind in ('tensor', 'scalar'): add(DynWrite(T, shape, osh, op, kind))
         for shape in ((7,), (3, 5), (2, 3, 4)): add(ElemWrite(T, shape))
